@@ -8,6 +8,7 @@ pub mod c06;
 pub mod c07;
 pub mod c08;
 pub mod c09;
+pub mod c10;
 pub mod c11;
 pub mod c12;
 pub mod c13;
@@ -16,6 +17,7 @@ pub mod c15;
 pub mod c16;
 pub mod c17;
 pub mod c18;
+pub mod c19;
 pub mod c20;
 
 use crate::report::{Local, Report};
@@ -34,6 +36,7 @@ pub fn table() -> Vec<(&'static str, RunFn, ReplayFn)> {
         ("C07", c07::run as RunFn, c07::replay as ReplayFn),
         ("C08", c08::run as RunFn, c08::replay as ReplayFn),
         ("C09", c09::run as RunFn, c09::replay as ReplayFn),
+        ("C10", c10::run as RunFn, c10::replay as ReplayFn),
         ("C11", c11::run as RunFn, c11::replay as ReplayFn),
         ("C12", c12::run as RunFn, c12::replay as ReplayFn),
         ("C13", c13::run as RunFn, c13::replay as ReplayFn),
@@ -42,6 +45,7 @@ pub fn table() -> Vec<(&'static str, RunFn, ReplayFn)> {
         ("C16", c16::run as RunFn, c16::replay as ReplayFn),
         ("C17", c17::run as RunFn, c17::replay as ReplayFn),
         ("C18", c18::run as RunFn, c18::replay as ReplayFn),
+        ("C19", c19::run as RunFn, c19::replay as ReplayFn),
         ("C20", c20::run as RunFn, c20::replay as ReplayFn),
     ]
 }
